@@ -5,7 +5,8 @@
 Mirrors
 
 * `metador_core/util/hashsums.py`  `hashsum` (lines 18–33: `_hash_alg[alg]()` with `KeyError ↦
-  ValueError`, the `while True: chunk = data.read(h.block_size) …` loop), `qualified_hashsum`
+  ValueError`, the `while True: chunk = data.read(h.block_size) …` loop = `readLoop`, block size
+  read in every iteration as in the source), `qualified_hashsum`
   (line 40–42: `f"{alg}:{hashsum(data, alg)}"`);
 * `metador_core/packer/utils.py`   `_h5_wrap_bytes` (line 21–25: `numpy.void(bs) if len(bs) else
   h5py.Empty("b")`), `pack_file` (order of checks: `target in node` → harvest → wrap →
@@ -19,6 +20,11 @@ Mirrors
 External calls: `hashlib` is the parameter `HashLib` (its streaming law is a *hypothesis* of
 the theorems), the HDF5 round trip of one scalar value is the small concrete model `h5Store`
 (validated against h5py by the correspondence harness on every run).
+
+Besides the correspondence run, `wrapBytes`, `delMark`, `isDelMark`, `guardValue`, `hashAlgs`,
+`readLoop`, `hashsum`, `qualifiedHashsum` are tied to the source by translation: `Gen/BytesFns.lean`
+is regenerated from the Python text on every run (`harness/translate_c17.py`, value dictionary
+`Model/BytesPy.lean`) and proved equal to them in `Bridge/BytesFns*.lean`.
 
 Strings are `List Char`, bytes are `List UInt8`. Import-free: only core Lean.
 -/
@@ -68,11 +74,24 @@ def sha512 : Str := ['s', 'h', 'a', '5', '1', '2']
 /-- keys of `_hash_alg` -/
 def hashAlgs : List Str := [sha256, sha512]
 
-/-- `hashsum(data, alg)` -/
+/-- The loop of `hashsum` as written: `while True: chunk = data.read(h.block_size); if not chunk:
+break; h.update(chunk)`. The state is (rest of the stream, hash object); `h.block_size` is read
+again in every iteration, on the updated object (for `hashlib` objects it is a constant and the
+loop is `hashChunks … (blockSize h) …`, see `readLoop_eq_hashChunks` in `Proofs/Bytes.lean`).
+`fuel` bounds the number of `read` calls; `data.length + 1` is always enough, because an iteration
+that does not leave the loop has read at least one byte. -/
+def readLoop {σ : Type} (hl : HashLib σ) : Nat → Bytes → σ → σ
+  | 0, _, h => h
+  | fuel + 1, data, h =>
+    let chunk := data.take (hl.blockSize h)
+    if chunk.isEmpty then h
+    else readLoop hl fuel (data.drop (hl.blockSize h)) (hl.update h chunk)
+
+/-- `hashsum(data, alg)`; `bs` is what the stream `data` (or the `bytes` object) holds -/
 def hashsum {σ : Type} (hl : HashLib σ) (bs : Bytes) (alg : Str) : Except Err Str :=
   if alg ∈ hashAlgs then
     let h := hl.new alg
-    .ok (hl.hexdigest (hashChunks hl.update h (hl.blockSize h) bs))
+    .ok (hl.hexdigest (readLoop hl (bs.length + 1) bs h))
   else .error .valueError  -- `except KeyError: raise ValueError("Unsupported hashsum")`
 
 /-- `qualified_hashsum(data, alg)` = `f"{alg}:{hashsum(data, alg)}"` -/
